@@ -242,7 +242,7 @@ class QCircuit:
 
         """
         for x in qubits:
-            if self.num_qubits is None or x > self.num_qubits:
+            if self.num_qubits is None or x < 0 or x >= self.num_qubits:
                 raise Exception(f"qubit {x} not present")
 
         qs = set()
